@@ -208,6 +208,8 @@ def source_strategy(draw, shape, steps, faces, kinds=("uniform_plane", "gaussian
         s["pos"] = draw(st.integers(lo + 1, max(lo + 1, hi - 2)))
         s["direction"] = draw(st.sampled_from(["+", "-"]))
         s["pol"] = transverse_pol(draw, ax)
+        if draw(st.integers(0, 3)) == 0:
+            s["pol_len"] = draw(st.sampled_from([2.0, 0.5, 5.0]))
         if kind == "gaussian_plane":
             s["radius_cells"] = draw(st.sampled_from([2.0, 3.0, 5.0]))
     else:
@@ -484,7 +486,10 @@ def build_objects(spec, lane, cfg):
         t = s["type"]
         if t in ("uniform_plane", "gaussian_plane"):
             ax = s["axis"]
-            kw = dict(direction=s["direction"], fixed_E_polarization_vector=tuple(s["pol"]), **common)
+            # the polarisation vector need not have unit length (fdtdx normalises it) and may be given for E or H
+            pvec = tuple(float(x) * s.get("pol_len", 1.0) for x in s["pol"])
+            kw = dict(direction=s["direction"], **common)
+            kw["fixed_H_polarization_vector" if s.get("pol_field", "E") == "H" else "fixed_E_polarization_vector"] = pvec
             if "az" in s:
                 kw["azimuth_angle"] = s["az"]
             if "el" in s:
